@@ -40,17 +40,6 @@ main(void)
         ADV_N_JOBS(&p, k);
         assert(p == (n + (int) k * SZ) % (N * SZ));
         assert(JOBS(&st, n) == &st.jobs[n / SZ]);
-        /* GET_NEXT_BURST at real size: consecutive slots from next_job, wrapping, never more than the free space */
-        static IMB_JOB *jobs[IMB_MAX_BURST_SIZE];
-        if (e == -1 || e != n) {
-                const uint32_t got = GET_NEXT_BURST(&st, k, jobs);
-                const unsigned room = (unsigned) N - ref;
-                assert(got == (k < room ? k : room));
-                const unsigned i = nondet_uint();
-                if (i < got)
-                        assert(jobs[i] == &st.jobs[(n / SZ + (int) i) % N]);
-                assert(st.earliest_job == e && st.next_job == n);
-        }
 #ifdef WITNESS
         assert(0);
 #endif
